@@ -180,4 +180,4 @@ PROPS = {
         "assumptions": ["texts of length 4 (3 for the known-finding obligation); index built by the scalar builder (C20 relates the SIMD builders to it)"],
     },
 }
-FIX_COMMITS = ["2cec8d3", "1d237d0", "a3cef7a"]
+FIX_COMMITS = ["2cec8d3", "1d237d0", "a3cef7a", "5751290"]
